@@ -220,6 +220,15 @@ func derived3(s *meshState3) (which, problem string) {
 		{"Scale(-1)", func() *model3d.Mesh { return s.m.Scale(-1) }, mapFaces3(s.ref, neg), false},
 		{"Translate", func() *model3d.Mesh { return s.m.Translate(model3d.XYZ(1, 2, 3)) }, mapFaces3(s.ref, tr), false},
 		{"Transform(Translate)", func() *model3d.Mesh { return s.m.Transform(&model3d.Translate{Offset: model3d.XYZ(1, 2, 3)}) }, mapFaces3(s.ref, tr), false},
+		{"NewMeshTriangles(TriangleSlice)", func() *model3d.Mesh { return model3d.NewMeshTriangles(s.m.TriangleSlice()) }, s.ref, false},
+		{"AddQuad", func() *model3d.Mesh {
+			m := s.m.Copy()
+			q := m.AddQuad(A, B, s.pool.verts[5], s.pool.verts[6])
+			if q[0] == nil || q[1] == nil || q[0] == q[1] {
+				return model3d.NewMesh() // reported as a face mismatch below
+			}
+			return m
+		}, nil, false},
 		{"InvertNormals", s.m.InvertNormals, rev(s.ref), true},
 		{"InvertNormals.InvertNormals", func() *model3d.Mesh { return s.m.InvertNormals().InvertNormals() }, s.ref, true},
 	}
@@ -227,6 +236,32 @@ func derived3(s *meshState3) (which, problem string) {
 		var got *model3d.Mesh
 		if p := ev.Try(func() { got = x.run() }); p != "" {
 			return x.name, x.name + ": panic: " + p
+		}
+		if x.name == "AddQuad" {
+			// two new faces that tile the quad A B C D with its orientation: together they traverse the four sides
+			// once each in the given direction and one diagonal in both directions
+			C, D := s.pool.verts[5], s.pool.verts[6]
+			if got.NumTriangles() != len(s.ref)+2 {
+				return x.name, fmt.Sprintf("AddQuad: %d faces after adding a quad to %d", got.NumTriangles(), len(s.ref))
+			}
+			var added []*model3d.Triangle
+			for _, t := range got.TriangleSlice() {
+				if s.has(t) < 0 {
+					added = append(added, t)
+				}
+			}
+			dir := map[[2]model3d.Coord3D]int{}
+			for _, t := range added {
+				for k := 0; k < 3; k++ {
+					dir[[2]model3d.Coord3D{t[k], t[(k+1)%3]}]++
+				}
+			}
+			ok := len(added) == 2 && dir[[2]model3d.Coord3D{A, B}] == 1 && dir[[2]model3d.Coord3D{B, C}] == 1 && dir[[2]model3d.Coord3D{C, D}] == 1 && dir[[2]model3d.Coord3D{D, A}] == 1 &&
+				(dir[[2]model3d.Coord3D{A, C}] == 1 && dir[[2]model3d.Coord3D{C, A}] == 1 || dir[[2]model3d.Coord3D{B, D}] == 1 && dir[[2]model3d.Coord3D{D, B}] == 1)
+			if !ok {
+				return x.name, fmt.Sprintf("AddQuad(A,B,C,D) added faces %v, which do not tile the quad in its orientation", added)
+			}
+			continue
 		}
 		if pr := chk(x.name, got, x.want, x.cyc); pr != "" {
 			return x.name, pr
@@ -242,6 +277,18 @@ func derived3(s *meshState3) (which, problem string) {
 			if p := meshq.Check3(got, s.ref, s.pool.verts, s.pool.faces); p != "" {
 				return x.name, "Copy: " + p
 			}
+		}
+	}
+	// IterateSorted: every current face once, in the order of the comparison (here: position in the face pool)
+	var seen []int
+	pos := func(t *model3d.Triangle) int { return s.has(t) }
+	s.m.IterateSorted(func(t *model3d.Triangle) { seen = append(seen, pos(t)) }, func(a, b *model3d.Triangle) bool { return pos(a) > pos(b) })
+	if len(seen) != len(s.ref) {
+		return "IterateSorted", fmt.Sprintf("IterateSorted visited %d faces, the mesh has %d", len(seen), len(s.ref))
+	}
+	for i, v := range seen {
+		if v < 0 || (i > 0 && seen[i-1] < v) {
+			return "IterateSorted", fmt.Sprintf("IterateSorted visited pool positions %v: not the mesh's faces in descending order", seen)
 		}
 	}
 	// the original must be unchanged by all of the above
